@@ -162,9 +162,28 @@ def run_c14(inst, seed, tid):
             a = _run("AndersonCD", X, y, {"kind": "WeightedQuadratic", "sample_weights": sw.tolist()}, pen, fi, st)
             b = _run("AndersonCD", Xr, yr, Q, pen, fi, st)
             pair(a, b, dict(X=Xr, y=yr, datafit=Q, penalty=pen, fit_intercept=fi))
-        elif kind == "efron_no_ties":
+        elif kind == "sparse_group_zero_group_weights":
+            # WeightedL1GroupL2 with zero group weights is the weighted L1 of its feature weights, whatever the layout
+            # of the groups (interleaved, unordered) and with pairwise different feature weights
+            ptr, idx = gen.groups_random(rng, p, 3, permuted=True)
+            wf = rng.uniform(0.3, 3.0, p)
+            sg = {"kind": "WeightedL1GroupL2", "alpha": al, "weights_groups": [0.0] * (len(ptr) - 1),
+                  "weights_features": wf.tolist(), "grp_ptr": ptr, "grp_indices": idx}
+            a = _run("GroupBCD", X, y, {"kind": "QuadraticGroup", "grp_ptr": ptr, "grp_indices": idx}, sg, fi, st,
+                     ws_strategy="fixpoint")
+            ref_pen = {"kind": "WeightedL1", "alpha": al, "weights": wf.tolist(), "positive": False}
+            b = _run("AndersonCD", X, y, Q, ref_pen, fi, st)
+            pair(a, b, dict(X=X, y=y, datafit=Q, penalty=ref_pen, fit_intercept=fi))
+        elif kind in ("efron_no_ties", "efron_no_tied_events"):
             Xs, ys = _data(rng, "surv")
             ys[:, 0] = rng.permutation(len(ys)) + 1.0          # no ties
+            if kind == "efron_no_tied_events":
+                # censored subjects may share their time with an event: Efron only corrects for TIED EVENTS
+                ys[:, 1] = 1.0
+                cens = rng.choice(len(ys), len(ys) // 3, replace=False)
+                ev = np.setdiff1d(np.arange(len(ys)), cens)
+                ys[cens, 1] = 0.0
+                ys[cens, 0] = ys[rng.choice(ev, len(cens)), 0]
             pen = {"kind": "L1", "alpha": 0.05, "positive": False}
             a = _run("ProxNewton", Xs, ys, {"kind": "Cox", "use_efron": True}, pen, False, st)
             b = _run("ProxNewton", Xs, ys, {"kind": "Cox", "use_efron": False}, pen, False, st)
